@@ -66,3 +66,14 @@ def main():
                      'payload shapes: list lengths 0..2, one optional unknown member per object, symbolic i64 / f64 / bool, strings concrete (quick) or <= 1 symbolic byte (thorough)',
                      'operations: the catalogue under kgen/catalogue; interface / union / fragment-spread / ID positions are excluded (serde Content)'],
         jobs=6, pre=abstract_part)
+
+
+def replay(path):
+    def other(p):
+        import consumer
+        import abstract_common as AC
+        C = consumer.Consumer(vc.scratch(PROP + 'r'))
+        ok, desc, _ = AC.confirm_object(C, p['model']) if p['model'].get('parent') == 'object' else AC.confirm(C, p['model'])
+        print(desc)
+        return 1 if ok is False else 0
+    return krun.replay_generic(PROP, build, lambda v: v not in ('RejectedValid', 'Lossy'), path, other=other)
